@@ -243,6 +243,7 @@ type c11Oracle struct {
 	T       []int // tie vector of the pooled values, ascending
 	hasTies bool
 	exact   bool // exact path applies by the documented size limits
+	beyond  bool // exact path applies but the pair is too large for the counting oracle
 	// exact path:
 	less, greater, two float64 // statement values
 	wrong2             float64 // the recorded wrong two-sided formula (tied only)
@@ -305,7 +306,12 @@ func c11MakeOracle(x1, x2 []float64) *c11Oracle {
 			counts = br
 		}
 		if counts == nil {
-			panic("c11 oracle: exact path beyond oracle reach")
+			// The library's exact limits are read from its exported constants;
+			// a tree that raises them (benign change, DESIGN.md 9.5) can make the
+			// exact path apply beyond what this oracle enumerates: such pairs are
+			// skipped and counted, not judged.
+			o.beyond = true
+			return o
 		}
 		total := new(big.Int)
 		for _, c := range counts {
@@ -391,6 +397,10 @@ func c11AltName(a stats.LocationHypothesis) string {
 
 func c11CheckPair(c c11Pair) *kit.Fail {
 	o := c11MakeOracle(c.X1, c.X2)
+	if o.beyond {
+		kit.Count("pairs in the exact path beyond the counting oracle (skipped)", 1)
+		return nil
+	}
 	var fails []*kit.Fail
 	add := func(f *kit.Fail) { fails = append(fails, f) }
 	alts := []stats.LocationHypothesis{stats.LocationLess, stats.LocationDiffers, stats.LocationGreater}
